@@ -98,11 +98,16 @@ def arith(op, a, ea, b, eb):
             raise NotComparable(op)
     except (ZeroDivisionError, OverflowError, ValueError) as ex:
         raise NotComparable(str(ex))
+    if isinstance(r, int) and not isinstance(r, bool) and abs(r) >= 2 ** 63:
+        # the property is quantified over values within 64-bit integer range: NumPy's integers wrap around here, also when
+        # the out-of-range value is only an intermediate result
+        raise NotComparable("integer (intermediate) result beyond the 64-bit range")
     return r, e + abs(r) * 2 * U
 
 
 EXTRA_ATOMS = {}       # per-case opaque literals (index -> value), set by the caller around a comparison
-ATOMS = {"negzero": -0.0, "subnormal": 5e-324, "tiny": 1e-300, "huge": 1e300, "mhuge": -1e300, "i62": 2 ** 62, "mi63": -2 ** 63}
+ATOMS = {"negzero": -0.0, "subnormal": 5e-324, "tiny": 1e-300, "huge": 1e300, "mhuge": -1e300, "i62": 2 ** 62, "mi63": -2 ** 63,
+         "i63": 2 ** 63, "i64m1": 2 ** 64 - 1, "i70": 2 ** 70 + 7}
 
 
 def eval_term(t, env=None):
@@ -189,8 +194,8 @@ def compare_number(spec, real, err=0.0):
     else:
         want, w_err = eval_term(spec["term"])
         if k == "int":
-            if abs(want) >= 2 ** 63:
-                return None          # outside the 64-bit integer range the property is quantified over
+            if abs(want) >= 2 ** 63 and spec["term"].get("t") != "atom":
+                return None          # computed outside the 64-bit integer range the property is quantified over (a literal is compared)
             return None if x == want else "value %r, specification says %r" % (x, want)
         if k == "complex":
             want = complex(want)
